@@ -10,6 +10,8 @@ def _masked_impl(kind, impl, model):
     """the part of the implementation's output the model determines: the random part of select() (which
     individuals, in the exploration phase also how many) is judged by the oracle only; for whole runs the tape
     (what the run handed to the population) is an input of the model, not an output"""
+    if kind == "vrp":
+        return None  # trace only: the oracle judges, the model predicts nothing
     if kind == "solve":
         if isinstance(impl, dict):
             return {k: v for k, v in impl.items() if k != "tape"}
@@ -50,6 +52,8 @@ def c08_nontrivial(case, v):
     (an add/add_all after which the population holds fewer individuals than it held plus what came in)"""
     k = case.get("k")
     impl = case.get("impl")
+    if k == "vrp":
+        return isinstance(impl, dict) and impl.get("cmp") == -1 and impl.get("init_tours", 0) >= 2
     if k == "solve":
         heads = [h[0] for h in impl.get("heads", []) if h]
         return len(set(heads)) >= 2
@@ -86,17 +90,21 @@ def c08_extra(cases, verdicts):
 
 
 PROP = dict(
-    proof_modules=["VrpProofs.C08"], model_modules=["VrpModel.C08"], drv="drv_c08", bin="c08",
+    proof_modules=["VrpProofs.C08", "VrpProofs.C08.Basic", "VrpProofs.C08.Machine", "VrpProofs.C08.Elitism",
+                   "VrpProofs.C08.ElitismStep", "VrpProofs.C08.Greedy", "VrpProofs.C08.Rosomaxa"], model_modules=["VrpModel.C08"], drv="drv_c08", bin="c08",
     compare=c08_compare, nontrivial=c08_nontrivial, extra_evidence=c08_extra,
     rule="operation sequences: the first ranked individual changes at least once after the first one and some add/add_all "
          "hits dedup or truncation (size after < size before + incoming); whole runs: the best known changes at least once; "
+         "seeded VRP solves: the result is strictly better than the initial solution, which has at least 2 tours; "
          "distinct = SHA-256 of the canonical case input",
     modelled="Greedy::{add,add_all,select,ranked,size}; Elitism::{add,add_all,add_with_iter,sort,dedup,truncate,is_improved,"
              "on_generation,select}; Rosomaxa::{add,add_all,is_comparable_with_best_known,update_phase,select,ranked,size,"
              "selection_phase} (elite + phase machine); TelemetryHeuristicContext::{on_initial,on_generation} and the result of "
              "Iterative::run as operation sequences",
     traced="whole runs of EvolutionSimulator + Iterative + TelemetryHeuristicContext with the real populations and a scripted "
-           "hyper-heuristic: what the run handed to the population is recorded and replayed through the model",
+           "hyper-heuristic: what the run handed to the population is recorded and replayed through the model; the VRP Solver "
+           "seeded (with_init_solutions) with a solution written by write_pragmatic and read back by read_init_solution: the "
+           "result is compared with the initial solution by the problem's own goal",
     out_of_model="GSOM network and node populations (what select() draws from nodes in the exploration phase, all()): C19; "
                  "which individuals the random generator picks inside select() (judged by the oracle: offered, non-empty, "
                  "best first); Elitism::{drain,set_max_population_size,maybe_change}; non-scalar/non-transitive objectives",
